@@ -3,7 +3,7 @@
 //! function.
 
 use crate::oracle::{self, Info};
-use crate::tree::{self, Entry};
+use crate::tree;
 use crate::OFail;
 
 pub const TARGETS: [&str; 4] = ["lex", "stmt", "expr", "roundtrip"];
@@ -32,12 +32,12 @@ pub fn run(target: &str, data: &[u8]) -> Result<TargetInfo, OFail> {
             let mut b = tree::Bytes::new(data);
             let style = b.next() & 15;
             let entry = tree::ENTRIES[b.next() as usize % 3];
-            let t = tree::build(&mut b, 8);
+            // 7 operator levels + leaf = depth 8
+            let t = tree::build(&mut b, 7);
             tree::check_roundtrip(&t, style, entry)?;
             let mut lv = 0u16;
             t.levels(&mut lv);
             let (pm, pf) = t.paren_counts();
-            let _ = Entry::Expr;
             Ok(TargetInfo { info: Info::default(), tree: Some((lv.count_ones(), pm, pf, t.size())) })
         },
         other => Err(OFail::new("harness:unknown-target", format!("unknown fuzz target {other:?}"))),
